@@ -27,10 +27,30 @@ where
     Error: Fn(RxError) + Send + Sync + 'a,
     Complete: Fn() -> () + Send + Sync + 'a,
   {
+    // only the first terminal notification is delivered (whichever thread it
+    // comes from) and no item is delivered once a terminal has been accepted
+    let terminated = Arc::new(RwLock::new(false));
+    let first_terminal = {
+      let terminated = Arc::clone(&terminated);
+      move || !std::mem::replace(&mut *terminated.write().unwrap(), true)
+    };
+    let first_terminal_error = first_terminal.clone();
     Observer::<T> {
-      fn_next: FunctionWrapper::new(next),
-      fn_error: FunctionWrapper::new(error),
-      fn_complete: FunctionWrapper::new(move |_| complete()),
+      fn_next: FunctionWrapper::new(move |x| {
+        if !*terminated.read().unwrap() {
+          next(x);
+        }
+      }),
+      fn_error: FunctionWrapper::new(move |e| {
+        if first_terminal_error() {
+          error(e);
+        }
+      }),
+      fn_complete: FunctionWrapper::new(move |_| {
+        if first_terminal() {
+          complete();
+        }
+      }),
       fn_on_unsubscribe: Arc::new(RwLock::new(None)),
     }
   }
